@@ -81,7 +81,7 @@ def classify_stderr(text):
 
 class ShardRun:
     def __init__(self, binary, args, workdir, nshards, env=None, stall_s=25.0, case_budget_s=None, log=print,
-                 shard_args=None, max_failures=24, alone_timeout=20.0):
+                 shard_args=None, max_failures=16, alone_timeout=12.0):
         self.binary = binary
         self.args = list(args)
         self.workdir = workdir
@@ -220,6 +220,16 @@ class ShardRun:
         if rc == 2 or idx is None:
             self.crashes.append(dict(idx=idx, desc=desc, kind="harness", key="harness-failure", stderr=stderr, rc=rc))
             return
+        # after a few confirmed witnesses of the same kind, further ones are recorded from the batch verdict
+        # (keeps a check on a badly broken tree within minutes)
+        confirmed = [c for c in self.crashes if c.get("batch_how") == how and c.get("kind") in ("deadlock", "crash")]
+        if len(confirmed) >= 3:
+            kind = "deadlock" if how == "deadlock" else ("crash" if how == "exit" else None)
+            if kind:
+                self.crashes.append(dict(idx=idx, desc=desc, batch_how=how, batch_rc=rc, batch_stderr=stderr[-6000:], kind=kind,
+                                         key=confirmed[0]["key"] if kind == "deadlock" else (classify_stderr(stderr) or _sig(rc) or "exit%s" % rc),
+                                         alone_status="not re-run (3 earlier witnesses confirmed alone)"))
+                return
         # confirm alone in a fresh process
         alone = self.run_alone(idx)
         rec = dict(idx=idx, desc=desc, batch_how=how, batch_rc=rc, batch_stderr=stderr[-6000:],
